@@ -5,6 +5,7 @@
 package main
 
 import (
+	"sync/atomic"
 	"fmt"
 	"os"
 	"runtime"
@@ -79,6 +80,9 @@ func main() {
 			}
 		}()
 		def.fn(r, tier == "thorough")
+		if n := atomic.LoadInt64(&heavyCases); n > 0 {
+			r.Set("objects_queried_4200_more_times", n)
+		}
 		return 0
 	}()
 	_ = code
